@@ -30,6 +30,9 @@ def boundaries(db, ents, P, tool):
             pts.update(range(p - 2, p + 3))
         step = max(1, (e['e'] - e['track']) // 12)
         pts.update(range(e['track'], e['e'], step))
+    # an interrupted write leaves whole sectors / pages: every multiple of 512 (and so of 4096, the page and mmap granularity), +-1
+    for k in range(1, len(db) // 512 + 1):
+        pts.update((512 * k - 1, 512 * k, 512 * k + 1))
     return sorted(p for p in pts if 0 <= p <= len(db))
 
 
@@ -144,6 +147,12 @@ CORPUS = [
     # cut right after the first delimiter of the second entry: empty size field (uncaught ValueError before fc121bd)
     {'tool': 'header', 'P': {'mb': 16, 'size': 20}, 'files': {'a.txt': '41' * 20, 'b.txt': '42' * 33}, 'in_damage': {}, 'dseed': 0, 'cut': {'entry': 1, 'anchor': 's', 'off': 10}},
 ]
+
+
+# a prefix of exactly one / two pages (4096 = page size and mmap allocation granularity): what an interrupted write leaves behind
+_pg = {'f%d.bin' % i: bytes((i * 37 + j * 11) % 251 for j in range(2500 + 100 * i)).hex() for i in range(8)}
+CORPUS += [{'tool': t, 'P': P, 'files': _pg, 'in_damage': {'f0.bin': [[3, 1]]}, 'dseed': 0, 'cut': c}
+           for t, P in (('header', {'mb': 255, 'size': 1024}), ('whole', {'mb': 64, 'size': 256})) for c in (4096, 8192)]
 
 
 def resolve_cut(case):
